@@ -7,7 +7,7 @@ reg(Check(
         "a blocked gRPC Send is a sender step that has not been taken; the send timer is an event that can happen only while a leaf/delete response is inside Send (real-time latency and the actual time.Timer are outside the model)",
         "ctree, coalesce.Queue and match operations are atomic steps (C10, C11, the match RW lock); coalesce.Queue.Insert never blocks (unbounded slice + non-blocking channel send)",
         "the uint32 duplicate counter does not wrap",
-        "subscription target is a concrete target name; no target removal; ACL allows everything",
+        "no target removal; the ACL-denied early return of the send routine is exercised by the harness (family acl-quiet, judged by the executable specification only) but is not a step of the transition system",
     ],
     modelled=["the transition system of C04 (subscribe.Server.Subscribe STREAM arm, processSubscription, sendStreamingResults incl. timer arm/expiry, sendSubscribeResponse, MakeSubscribeResponse dup count, Server.Update; cache.Target.GnmiUpdate/gnmiUpdate/gnmiRemove/Reset root deletes; coalesce.Queue abstractly)"],
 ),
